@@ -122,6 +122,7 @@ def content(rng, i):
             steps.append({"do": "listen", "h": h, "what": "returns", "as": "R" + h})
     mid = 1000 * (i % 2000)
     # build per-channel frame lists, then interleave them at frame granularity
+    fullsize = rng.random() < 0.3
     per = {}
     for h in hs:
         fl = []
@@ -129,6 +130,10 @@ def content(rng, i):
             mid += 1
             ln = rng.choice([0, 1, 2, 5, 64, 1000, 5000])
             chunks = partition(rng, ln)
+            if fullsize and rng.random() < 0.6:
+                # body frames as large as the negotiated frame_max (4096) allows, as a broker cuts them
+                ln = rng.choice([4088, 8176, 8181, 12264])
+                chunks = [4088] * (ln // 4088) + ([ln % 4088] if ln % 4088 else [])
             if rng.random() < 0.75:
                 c = rng.choice(cons[h])
                 fl.append([{"k": "deliver_m", "ch": ids[h], "tag": c, "mid": mid}, ("hdr", mid, ln)] +
@@ -172,6 +177,8 @@ def content(rng, i):
         cfg["read_cycle"] = [rng.choice([1, 2, 3, 7, 8, 9, 50, 4096, 0]) for _ in range(rng.randrange(1, 6))]
         if all(x == 0 for x in cfg["read_cycle"]):
             cfg["read_cycle"].append(5)
+    if fullsize:
+        cfg["tune"] = [0, 4096, 0]
     return {"kind": "content", "cfg": cfg, "steps": steps}
 
 
@@ -569,7 +576,8 @@ def chanclose(rng, i):
     steps, ids, hs, cons, inflight = session_prefix(rng, i, n=rng.choice([2, 3]))
     victim = rng.choice(hs)
     ch = ids[victim]
-    code = rng.choice([404, 406, 403])
+    # (any reply code may come with a Channel.Close, also those AMQP reserves for connection errors)
+    code = rng.choice([404, 406, 403, 320, 506, 541, 504, 530, 200, 0, 999])
     text = rng.choice(["NOT_FOUND - no queue 'q'", "PRECONDITION_FAILED", ""])
     if victim in inflight and rng.random() < 0.6:
         # the server answers the call in flight and closes the channel in the same burst
@@ -722,7 +730,9 @@ def reply_then_close(rng, i):
     for c in cons:
         steps.append({"do": "drain", "c": c})
     steps.append({"do": "closeconn"})
-    return {"kind": "connclose-slowcaller", "cfg": {}, "steps": steps}
+    # (the handle's request queue bound is a tuning knob; the reply path must not depend on it)
+    cfg = {"bound": rng.choice([0, 1, 2, 16])} if rng.random() < 0.6 else {}
+    return {"kind": "connclose-slowcaller", "cfg": cfg, "steps": steps}
 
 
 def undrained(rng, i):
